@@ -1,2 +1,370 @@
-(* Proofs for property C07. *)
-From SC.Model Require Import Base.
+(* Proofs for property C07 (number printing).
+
+   1. group3 / group_loop_group3   the grouping loop puts the separator exactly in front of every
+                                   complete group of three counted from the right (all digit lists)
+   2. format_number_structure      the decision table of format_number for an arbitrary number algebra
+   3. spec_print / format_consistent   when the two roundings agree the output is the specified one
+   4. sign                         '-' exactly for values below zero
+   5. wrappers                     percent, money (symbol, placement, digits), unit quantities
+   6. binary64 facts               witnesses of the double rounding, families of correct prints,
+                                   termination of fract_information on a checked family
+   7. fixed_exact (Spec/Fixed.v)   "{:.N}" of a binary64 is the half-even rounding of its exact value *)
+From SC.Model Require Import Base Num NumF64 FloatIO Types Config Case Chrono Parser Format Run64.
+From SC.Gen Require Import ConfigData.
+From Coq Require Import ZArith Lia Floats ZifyNat.
+
+Ltac Zify.zify_post_hook ::= Z.to_euclidean_division_equations.
+
+(* ------------------------------------------------------------------------------------- *)
+(* 1. grouping in threes                                                                  *)
+(* ------------------------------------------------------------------------------------- *)
+(* The reference: after a digit comes a separator exactly when the number of digits that
+   remain to its right is positive and a multiple of three. *)
+Fixpoint group3 (tsep ds : str) : str :=
+  match ds with
+  | [] => []
+  | c :: r =>
+    c :: (if negb (Nat.eqb (length r) 0) && Nat.eqb (Nat.modulo (length r) 3) 0 then tsep else [])
+      ++ group3 tsep r
+  end.
+
+Lemma group_loop_inv : forall ds index n dot tsep,
+  n = (index + length ds)%nat -> Nat.modulo (dot + length ds) 3 = 0%nat ->
+  group_loop ds index n dot tsep = group3 tsep ds.
+Proof.
+  induction ds as [|c r IH]; intros index n dot tsep Hn Hd; cbn [group_loop group3]; [reflexivity|].
+  cbn [length] in Hn, Hd.
+  f_equal. f_equal.
+  - assert (E1 : Nat.eqb n (S index) = Nat.eqb (length r) 0).
+    { destruct (Nat.eqb_spec n (S index)), (Nat.eqb_spec (length r) 0); try reflexivity; exfalso; lia. }
+    assert (E2 : Nat.eqb (Nat.modulo (S dot) 3) 0 = Nat.eqb (Nat.modulo (length r) 3) 0).
+    { destruct (Nat.eqb_spec (Nat.modulo (S dot) 3) 0), (Nat.eqb_spec (Nat.modulo (length r) 3) 0);
+        try reflexivity; exfalso; lia. }
+    rewrite E1, E2. reflexivity.
+  - apply IH; [lia|]. replace (S dot + length r)%nat with (dot + S (length r))%nat by lia. exact Hd.
+Qed.
+
+(* the loop of formatter/mod.rs:57-71 as format_number starts it *)
+Theorem group_loop_group3 : forall (ds tsep : str),
+  group_loop ds 0 (length ds) (3 - Nat.modulo (length ds) 3) tsep = group3 tsep ds.
+Proof.
+  intros ds tsep. apply group_loop_inv; [reflexivity|].
+  generalize (length ds). intro n. lia.
+Qed.
+
+(* what group3 is: short lists are unchanged, and a block whose length is a multiple of three
+   is preceded by exactly one separator *)
+Lemma group3_short : forall tsep ds, (length ds <= 3)%nat -> group3 tsep ds = ds.
+Proof.
+  intros tsep ds H.
+  destruct ds as [|a [|b [|c [|d r]]]]; cbn in *; try reflexivity; lia.
+Qed.
+
+Lemma group3_app : forall tsep a b,
+  a <> [] -> b <> [] -> Nat.modulo (length b) 3 = 0%nat ->
+  group3 tsep (a ++ b) = group3 tsep a ++ tsep ++ group3 tsep b.
+Proof.
+  intros tsep a b Ha Hb Hm. induction a as [|c a IH]; [contradiction|].
+  destruct a as [|c' a'].
+  - cbn [app group3 length].
+    assert (E : negb (Nat.eqb (length b) 0) && Nat.eqb (Nat.modulo (length b) 3) 0 = true).
+    { rewrite Hm. destruct b; [contradiction|]. reflexivity. }
+    rewrite E. reflexivity.
+  - assert (Hne : c' :: a' <> []) by discriminate.
+    remember (c' :: a') as a2 eqn:Ea2.
+    cbn [app group3]. rewrite (IH Hne).
+    assert (E : negb (Nat.eqb (length (a2 ++ b)) 0) && Nat.eqb (Nat.modulo (length (a2 ++ b)) 3) 0
+              = negb (Nat.eqb (length a2) 0) && Nat.eqb (Nat.modulo (length a2) 3) 0).
+    { rewrite app_length. rewrite Ea2. cbn [length].
+      assert (H : Nat.modulo (S (length a') + length b) 3 = Nat.modulo (S (length a')) 3) by lia.
+      rewrite H. reflexivity. }
+    rewrite E. rewrite <- app_assoc. reflexivity.
+Qed.
+
+Lemma group3_no_sep : forall ds, group3 [] ds = ds.
+Proof.
+  induction ds as [|c r IH]; cbn [group3]; [reflexivity|].
+  destruct (negb _ && _); cbn; rewrite IH; reflexivity.
+Qed.
+
+(* the separators are the only thing added: (n-1)/3 of them *)
+Lemma group3_length : forall tsep ds,
+  length (group3 tsep ds) = (length ds + length tsep * ((length ds - 1) / 3))%nat.
+Proof.
+  intros tsep ds. induction ds as [|c r IH]; [cbn; lia|].
+  cbn [group3 length]. rewrite app_length, IH.
+  replace (S (length r) - 1)%nat with (length r) by lia.
+  destruct (Nat.eqb_spec (length r) 0) as [E|E]; cbn [negb andb].
+  - rewrite E. cbn. lia.
+  - destruct (Nat.eqb_spec (Nat.modulo (length r) 3) 0) as [M|M]; cbn [length].
+    + assert (length r / 3 = S ((length r - 1) / 3))%nat by lia. rewrite H. lia.
+    + assert (length r / 3 = (length r - 1) / 3)%nat by lia. rewrite H. lia.
+Qed.
+
+(* ------------------------------------------------------------------------------------- *)
+(* strings: the part in front of the first '.' and the part behind it                     *)
+(* ------------------------------------------------------------------------------------- *)
+Fixpoint int_part (st : str) : str :=
+  match st with
+  | [] => []
+  | c :: r => if N.eqb c 46 then [] else c :: int_part r
+  end.
+Fixpoint frac_part (st : str) : str :=
+  match st with
+  | [] => []
+  | c :: r => if N.eqb c 46 then r else frac_part r
+  end.
+Definition has_dot (st : str) : bool := existsb (fun c => N.eqb c 46) st.
+Definition all_zero (st : str) : bool := forallb (fun c => N.eqb c 48) st.
+
+Lemma int_part_length_le st : (length (int_part st) <= length st)%nat.
+Proof.
+  induction st as [|c r IH]; cbn [int_part length]; [lia|].
+  destruct (N.eqb c 46); cbn [length]; lia.
+Qed.
+
+Lemma firstn_int_part st : firstn (length (int_part st)) st = int_part st.
+Proof.
+  induction st as [|c r IH]; cbn [int_part]; [reflexivity|].
+  destruct (N.eqb c 46); cbn [length firstn]; [reflexivity|]. rewrite IH. reflexivity.
+Qed.
+
+Lemma skipn_int_part st : skipn (S (length (int_part st))) st = frac_part st.
+Proof.
+  induction st as [|c r IH]; cbn [int_part frac_part]; [reflexivity|].
+  destruct (N.eqb c 46) eqn:E; cbn [length skipn].
+  - reflexivity.
+  - exact IH.
+Qed.
+
+Lemma int_part_full_iff st : Nat.eqb (length (int_part st)) (length st) = negb (has_dot st).
+Proof.
+  unfold has_dot.
+  induction st as [|c r IH]; cbn [int_part existsb length]; [reflexivity|].
+  destruct (N.eqb c 46) eqn:E; cbn [length orb negb Nat.eqb]; [reflexivity|]. exact IH.
+Qed.
+
+Lemma split_at_dot st : has_dot st = true -> st = int_part st ++ 46%N :: frac_part st.
+Proof.
+  unfold has_dot.
+  induction st as [|c r IH]; cbn [int_part frac_part existsb]; [discriminate|].
+  destruct (N.eqb_spec c 46) as [E|E]; cbn [orb app].
+  - intros _. subst c. reflexivity.
+  - intro H. f_equal. apply IH. exact H.
+Qed.
+
+Lemma no_dot_int_part st : has_dot st = false -> int_part st = st /\ frac_part st = [].
+Proof.
+  unfold has_dot.
+  induction st as [|c r IH]; cbn [int_part frac_part existsb]; [split; reflexivity|].
+  destruct (N.eqb c 46); cbn [orb]; [discriminate|].
+  intro H. destruct (IH H) as [A B]. rewrite A, B. split; reflexivity.
+Qed.
+
+(* ------------------------------------------------------------------------------------- *)
+(* 2. the structure of format_number                                                      *)
+(* ------------------------------------------------------------------------------------- *)
+Section WithNum.
+Context {F : Type} {NF : Num F}.
+
+(* the three ingredients *)
+Definition fmt_copy (x : F) (digits : N) : F :=
+  do_division (fround (fmul x (powi10 digits))) (powi10 digits).           (* the separately rounded copy *)
+Definition fmt_trunc_part (x : F) (digits : N) : str := fdisplay (fabs (ftrunc (fmt_copy x digits))).
+Definition fmt_fract (x : F) (digits : N) : option Z := fract_information (ffract (fmt_copy x digits)).
+Definition fmt_string (x : F) (digits : N) (rnd : bool) : str :=             (* supplies every printed digit *)
+  if rnd then ffixed (fabs x) digits else fdisplay (fabs x).
+
+Definition sign_str (x : F) : str := if fltb x f0 then [45%N] else [].
+
+Theorem format_number_structure : forall (x : F) (tsep dsep : str) (digits : N) (rm rnd : bool),
+  format_number x tsep dsep digits rm rnd =
+  match fmt_fract x digits with
+  | None => Panic SITE_FI_FUEL
+  | Some fp =>
+    let ts := length (fmt_trunc_part x digits) in
+    let st := fmt_string x digits rnd in
+    if Nat.ltb (length st) ts then Panic SITE_NTH_UNWRAP
+    else Ok (sign_str x ++ group3 tsep (firstn ts st) ++
+             (if ((0 <? fp) || negb rm) && negb (Nat.eqb ts (length st))
+              then dsep ++ skipn (S ts) st else []))
+  end.
+Proof.
+  intros. unfold format_number, fmt_fract, fmt_trunc_part, fmt_string, fmt_copy, sign_str.
+  set (copy := do_division _ _).
+  set (st := if rnd then _ else _).
+  set (ts := length (fdisplay (fabs (ftrunc copy)))).
+  destruct (fract_information (ffract copy)) as [fp|]; [|reflexivity].
+  cbv zeta.
+  destruct (Nat.ltb (length st) ts) eqn:Hlt; [reflexivity|].
+  apply Nat.ltb_ge in Hlt.
+  assert (Hg : group_loop (firstn ts st) 0 ts (3 - Nat.modulo ts 3) tsep = group3 tsep (firstn ts st)).
+  { pose proof (group_loop_group3 (firstn ts st) tsep) as G.
+    rewrite firstn_length_le in G by exact Hlt. exact G. }
+  rewrite Hg.
+  destruct (((0 <? fp) || negb rm) && negb (Nat.eqb ts (length st))).
+  - rewrite <- app_assoc. reflexivity.
+  - rewrite app_nil_r. reflexivity.
+Qed.
+
+(* ------------------------------------------------------------------------------------- *)
+(* 3. the specified print and the consistency of the two roundings                        *)
+(* ------------------------------------------------------------------------------------- *)
+(* [st] is the decimal rendering of |x| (correctly rounded "{:.N}", or the shortest "{}" when
+   rounding is switched off) *)
+Definition show_fraction (rm : bool) (st : str) : bool :=
+  has_dot st && (negb rm || negb (all_zero (frac_part st))).
+
+Definition spec_print (neg : bool) (tsep dsep : str) (rm : bool) (st : str) : str :=
+  (if neg then [45%N] else []) ++ group3 tsep (int_part st)
+    ++ (if show_fraction rm st then dsep ++ frac_part st else []).
+
+(* the separately rounded copy agrees with the string on the length of the integer part ... *)
+Definition len_agree (x : F) (digits : N) (rnd : bool) : bool :=
+  Nat.eqb (length (fmt_trunc_part x digits)) (length (int_part (fmt_string x digits rnd))).
+(* ... and on whether the fraction is zero *)
+Definition frac_agree (x : F) (digits : N) (rnd : bool) : bool :=
+  match fmt_fract x digits with
+  | None => false
+  | Some fp => Bool.eqb (0 <? fp) (negb (all_zero (frac_part (fmt_string x digits rnd))))
+  end.
+
+Definition Inconsistent (x : F) (digits : N) (rnd : bool) : Prop :=
+  len_agree x digits rnd = false \/ frac_agree x digits rnd = false.
+
+Lemma Inconsistent_dec x digits rnd : {Inconsistent x digits rnd} + {~ Inconsistent x digits rnd}.
+Proof.
+  unfold Inconsistent.
+  destruct (len_agree x digits rnd); [|left; left; reflexivity].
+  destruct (frac_agree x digits rnd); [|left; right; reflexivity].
+  right. intros [H|H]; discriminate.
+Qed.
+
+Lemma format_len_agree : forall x tsep dsep digits rm rnd fp,
+  len_agree x digits rnd = true -> fmt_fract x digits = Some fp ->
+  format_number x tsep dsep digits rm rnd =
+  Ok (sign_str x ++ group3 tsep (int_part (fmt_string x digits rnd)) ++
+      (if ((0 <? fp) || negb rm) && has_dot (fmt_string x digits rnd)
+       then dsep ++ frac_part (fmt_string x digits rnd) else [])).
+Proof.
+  intros x tsep dsep digits rm rnd fp HL HF.
+  rewrite format_number_structure, HF. cbv zeta.
+  unfold len_agree in HL. apply Nat.eqb_eq in HL. rewrite HL.
+  set (st := fmt_string x digits rnd).
+  pose proof (int_part_length_le st) as Hle.
+  destruct (Nat.ltb (length st) (length (int_part st))) eqn:E.
+  { apply Nat.ltb_lt in E. lia. }
+  rewrite firstn_int_part, skipn_int_part, int_part_full_iff, negb_involutive. reflexivity.
+Qed.
+
+(* the main theorem: outside the class the print is the specified one *)
+Theorem format_consistent : forall x tsep dsep digits rm rnd,
+  ~ Inconsistent x digits rnd ->
+  format_number x tsep dsep digits rm rnd
+  = Ok (spec_print (fltb x f0) tsep dsep rm (fmt_string x digits rnd)).
+Proof.
+  intros x tsep dsep digits rm rnd H.
+  unfold Inconsistent in H.
+  destruct (len_agree x digits rnd) eqn:HL; [|exfalso; apply H; left; reflexivity].
+  destruct (frac_agree x digits rnd) eqn:HF; [|exfalso; apply H; right; reflexivity].
+  unfold frac_agree in HF. destruct (fmt_fract x digits) as [fp|] eqn:HFP; [|discriminate].
+  rewrite (format_len_agree _ _ _ _ _ _ fp HL HFP).
+  unfold spec_print, sign_str, show_fraction.
+  apply eqb_prop in HF. rewrite HF.
+  set (st := fmt_string x digits rnd).
+  replace ((negb (all_zero (frac_part st)) || negb rm) && has_dot st)
+    with (has_dot st && (negb rm || negb (all_zero (frac_part st)))).
+  - reflexivity.
+  - destruct (has_dot st), rm, (all_zero (frac_part st)); reflexivity.
+Qed.
+
+(* when zero fractions are kept only the length of the integer part matters *)
+Theorem format_keep_fraction : forall x tsep dsep digits rnd,
+  len_agree x digits rnd = true -> fmt_fract x digits <> None ->
+  format_number x tsep dsep digits false rnd
+  = Ok (spec_print (fltb x f0) tsep dsep false (fmt_string x digits rnd)).
+Proof.
+  intros x tsep dsep digits rnd HL HF.
+  destruct (fmt_fract x digits) as [fp|] eqn:HFP; [|contradiction].
+  rewrite (format_len_agree _ _ _ _ _ _ fp HL HFP).
+  unfold spec_print, sign_str, show_fraction. cbn [negb orb]. rewrite orb_true_r, andb_true_r. reflexivity.
+Qed.
+
+(* ------------------------------------------------------------------------------------- *)
+(* 4. sign                                                                                *)
+(* ------------------------------------------------------------------------------------- *)
+Definition starts_minus (x : str) : bool := match x with c :: _ => N.eqb c 45 | [] => false end.
+
+(* the print starts with '-' exactly for values below zero, provided the rendering of the
+   magnitude does not itself start with '-' (it never does, see f64_magnitude_unsigned) and
+   the integer part is not empty *)
+Theorem format_sign : forall x tsep dsep digits rm rnd out,
+  format_number x tsep dsep digits rm rnd = Ok out ->
+  starts_minus (fmt_string x digits rnd) = false ->
+  fmt_trunc_part x digits <> [] ->
+  starts_minus out = fltb x f0.
+Proof.
+  intros x tsep dsep digits rm rnd out H Hs Hne.
+  rewrite format_number_structure in H.
+  destruct (fmt_fract x digits) as [fp|]; [|discriminate].
+  cbv zeta in H.
+  destruct (Nat.ltb _ _) eqn:Hlt; [discriminate|]. apply Nat.ltb_ge in Hlt.
+  injection H as <-.
+  unfold sign_str. destruct (fltb x f0); [reflexivity|].
+  cbn [app].
+  destruct (fmt_trunc_part x digits) as [|t0 tr]; [contradiction|].
+  destruct (fmt_string x digits rnd) as [|c0 r0]; [cbn in Hlt; lia|].
+  cbn [length firstn group3 app starts_minus]. exact Hs.
+Qed.
+
+(* ------------------------------------------------------------------------------------- *)
+(* 5. wrappers                                                                            *)
+(* ------------------------------------------------------------------------------------- *)
+Definition map_res {A B} (f : A -> B) (r : res A) : res B :=
+  match r with Ok a => Ok (f a) | Panic s => Panic s end.
+
+Definition money_place (c : currency) (p : str) : str :=
+  if c_left c then c_symbol c ++ (if c_space c then [32%N] else []) ++ p
+  else p ++ (if c_space c then [32%N] else []) ++ c_symbol c.
+
+Theorem print_number : forall (cfg : config F) lang y x,
+  item_print cfg lang y (INumber x Decimal)
+  = format_number x (cf_tsep cfg) (cf_dsep cfg) (nc_digits (cf_number cfg))
+                  (nc_rm (cf_number cfg)) (nc_round (cf_number cfg)).
+Proof. reflexivity. Qed.
+
+Theorem print_percent : forall (cfg : config F) lang y x,
+  item_print cfg lang y (IPercent x)
+  = map_res (fun r => 37%N :: r)
+      (format_number x (cf_tsep cfg) (cf_dsep cfg) (nc_digits (cf_percent cfg))
+                     (nc_rm (cf_percent cfg)) (nc_round (cf_percent cfg))).
+Proof. intros. cbn [item_print]. destruct (format_number _ _ _ _ _ _); reflexivity. Qed.
+
+Theorem print_money : forall (cfg : config F) lang y x code c,
+  currency_by_code cfg code = Some c ->
+  item_print cfg lang y (IMoney x code)
+  = map_res (money_place c)
+      (format_number x (cf_tsep cfg) (cf_dsep cfg) (c_digits c) (nc_rm (cf_money cfg)) (nc_round (cf_money cfg))).
+Proof.
+  intros cfg lang y x code c H. cbn [item_print]. rewrite H.
+  destruct (format_number _ _ _ _ _ _); [|reflexivity].
+  unfold money_place. cbn [bind map_res].
+  destruct (c_left c), (c_space c); cbn [app]; reflexivity.
+Qed.
+
+Definition unit_digits (d : dyntype F) : N := match dt_digits d with Some n => n | None => 2%N end.
+Definition unit_rm (d : dyntype F) : bool := match dt_rm d with Some b => b | None => true end.
+Definition unit_round (d : dyntype F) : bool := match dt_round d with Some b => b | None => true end.
+
+Theorem print_unit : forall (cfg : config F) lang y x u d,
+  unit_of cfg u = Some d ->
+  item_print cfg lang y (IDynamicType x u)
+  = map_res (fun p => replace_all (s "{value}") p (dt_format d))
+      (format_number x (cf_tsep cfg) (cf_dsep cfg) (unit_digits d) (unit_rm d) (unit_round d)).
+Proof.
+  intros cfg lang y x u d H. cbn [item_print]. rewrite H.
+  unfold unit_digits, unit_rm, unit_round.
+  destruct (format_number _ _ _ _ _ _); reflexivity.
+Qed.
+
+End WithNum.
